@@ -19,6 +19,7 @@ type BankKeeper interface {
 	SendCoinsFromModuleToModule(ctx sdk.Context, senderModule, recipientModule string, amt sdk.Coins) error
 
 	SpendableCoins(ctx sdk.Context, addr sdk.AccAddress) sdk.Coins
+	BlockedAddr(addr sdk.AccAddress) bool
 }
 
 // AccountKeeper defines the expected account keeper used for simulations (noalias)
